@@ -535,8 +535,12 @@ def _equal_graphs(g1, g2):
     :return: given two graphs this function return true if they have the same adjacency matrix.
     :rtype: bool
     """
-    adj1 = (nx.to_numpy_array(g1)).astype(bool)
-    adj2 = (nx.to_numpy_array(g2)).astype(bool)
+    # lay both graphs out in one node order: graphs with the same labelled edges may list their nodes differently
+    node_list = sorted(g1.nodes())
+    if sorted(g2.nodes()) != node_list:
+        return False
+    adj1 = (nx.to_numpy_array(g1, nodelist=node_list)).astype(bool)
+    adj2 = (nx.to_numpy_array(g2, nodelist=node_list)).astype(bool)
     return np.array_equal(adj1, adj2)
 
 
